@@ -28,7 +28,7 @@ def load_catalog():
         cat.append({"id": "seed-" + os.path.basename(d), "property": meta.get("property", os.path.basename(d)[:3]),
                     "expect": "alarm", "patch": os.path.join(d, "patch.diff")})
     # behaviour-preserving refactorings kept from the sub-agent round: must stay quiet
-    for d in sorted(glob.glob(os.path.join(VERIF, "benign", "C*-b[0-9]"))):
+    for d in sorted(glob.glob(os.path.join(VERIF, "benign", "C*b[0-9]"))):
         try:
             meta = json.load(open(os.path.join(d, "meta.json")))
         except (OSError, ValueError):
